@@ -249,10 +249,15 @@ def miner_stage(ctx, sim, rnd):
             raise vlib.Undecided("the miner model without %s has no counterexample: the property does not depend on the mechanism" % sw)
         detected.append("%s=FALSE -> %s" % (sw, r.violated))
     ctx.cov["miner_model_mutations_detected"] = detected
-    g = ctx.tlc_must("BlockExec_Miner", miner_cfg(dict(MINER, MaxSubmit=2, GenMode='"leaf"'), "G"), name="G1_miner_programs", timeout=2400)
+    if quick:
+        # a seeded sample of the miner model's programs (the bounded-exhaustive set has ~55 000 members)
+        g = ctx.tlc_must("BlockExec_Miner", miner_cfg(dict(MINER, MaxSubmit=3, GenMode='"leaf"'), "G"), name="G2_miner_programs",
+                         timeout=1200, simulate={"num": 40}, depth=40)
+    else:
+        g = ctx.tlc_must("BlockExec_Miner", miner_cfg(dict(MINER, MaxSubmit=2, GenMode='"leaf"'), "G"), name="G1_miner_programs", timeout=2400)
     progs = [v["h"] for v in g.printed if isinstance(v, dict) and v.get("kind") == "B"]
     rnd.shuffle(progs)
-    progs = progs[:60 if quick else 1500]
+    progs = progs[:30 if quick else 600]
     behs = [miner_scenario(), C07.scenarios()[4]] + [add_evidences(to_pool_program(s, rnd), rnd) for s in C07.scenarios()[:2]] \
         + [to_pool_program(h, rnd) for h in sim] + progs
     ctx.note("miner stage: %d pool programs (%d from the miner model, %d from generated histories)" % (len(behs), len(progs), len(sim)))
@@ -304,12 +309,12 @@ def run(ctx):
     g1 = ctx.tlc_must("BlockExec", cfg(dict(BE, MaxBlocks=2 if quick else 3, GenMode='"leaf"'), "G"), name="G1_programs", timeout=2400)
     progs = [v["h"] for v in g1.printed if isinstance(v, dict) and v.get("kind") == "B"]
     rnd.shuffle(progs)
-    small += progs[:200 if quick else 1500]
+    small += progs[:100 if quick else 800]
     full = dict(Users='{"u1", "u2"}', GenVals='{"g1", "g2", "g3"}', NewVals='{"n1", "n2"}', Unit=10, Amts='{5, 15, 37, 100}',
                 Period=4, MaxBlocks=16 if quick else 24, MaxTx=3, MaxTxTotal=30 if quick else 48, MRP=2, Fee=1000, Refund=300,
                 Threshold=1000, Wait=8, Delay=6, StaleSettle="TRUE", RefundAfterGasUsed="TRUE", DropRemovedRewards="TRUE",
                 Alphabet='"full"', GenMode='"leaf"')
-    num = 30 if quick else 250
+    num = 16 if quick else 150
     g2 = ctx.tlc_must("Staking", C07.cfg(full, "G"), name="G2_staking_histories", timeout=2400, simulate={"num": num},
                       depth=8 * full["MaxBlocks"] + 20, extra=["-aril", "3"])
     sim = [add_evidences(v["h"], rnd) for v in g2.printed if isinstance(v, dict) and v.get("kind") == "B"]
@@ -324,11 +329,12 @@ def run(ctx):
             ctx.sample(b)
     # ---------------------------------------------------------------- T
     judge(ctx, small, OPTS_SMALL, "small", expect, two_processes=False)
-    trace = judge(ctx, [b for _, bs, o in wit if not o for b in bs] + scen + sim, OPTS_DEFAULT, "default")
+    # the second driver process (cross-process determinism) runs in the thorough tier only
+    trace = judge(ctx, [b for _, bs, o in wit if not o for b in bs] + scen + sim, OPTS_DEFAULT, "default", two_processes=not quick)
     for i, (f, bs, o) in enumerate(wit):
         if o:
             judge(ctx, bs, o, "wit%d" % i, two_processes=False)
-    miner_stage(ctx, [v["h"] for v in g2.printed if isinstance(v, dict) and v.get("kind") == "B"][:12 if quick else 200], rnd)
+    miner_stage(ctx, [v["h"] for v in g2.printed if isinstance(v, dict) and v.get("kind") == "B"][:8 if quick else 120], rnd)
     fired = ctx.cov.get("clauses_fired", {})
     idle = sorted(k for k in ("Deterministic", "BuilderAccepted", "ImportReproduces", "PeriodEnds", "Slashed") if not fired.get(k))
     if idle and not ctx.violations:
